@@ -91,6 +91,8 @@ pub struct Gen<'a> {
     cur: usize,
     taken_def_names: HashSet<String>,
     pub stats: GenStats,
+    /// per-program mode: control operators (label, goto, exit) are several times as frequent
+    control_heavy: bool,
 }
 
 const VAR_POOL: [&str; 24] = [
@@ -161,6 +163,7 @@ impl<'a> Gen<'a> {
             cur: 0,
             taken_def_names: HashSet::new(),
             stats: GenStats::default(),
+            control_heavy: false,
         }
     }
 
@@ -699,6 +702,11 @@ impl<'a> Gen<'a> {
 
     fn gen_tm_rec(&mut self, env: &mut Vec<Bind>, ty: &Ty, size: usize, pure: bool, in_rec: bool) -> Tm {
         if size == 0 {
+            // `exit x` is as small as a leaf and has every type
+            if self.control_heavy && !pure && self.c.prob(36) {
+                let arg = self.leaf(env, &Ty::I64, pure);
+                return Tm::Exit(Box::new(arg));
+            }
             return self.leaf(env, ty, pure);
         }
         let is_int = matches!(ty, Ty::I64);
@@ -763,9 +771,9 @@ impl<'a> Gen<'a> {
             if callable.is_empty() { 0 } else if self.cur + 1 == self.sigs.len() { 40 } else { 16 }, // 5 call
             if case_opts.is_empty() { 0 } else { 14 },           // 6 case
             if dtor_opts.is_empty() { 0 } else { 14 },           // 7 dtor
-            if eff { 5 } else { 0 },                             // 8 label
-            if eff && !covars.is_empty() { 4 } else { 0 },       // 9 goto
-            if eff { 2 } else { 0 },                             // 10 exit
+            if eff { if self.control_heavy { 14 } else { 5 } } else { 0 }, // 8 label
+            if eff && !covars.is_empty() { if self.control_heavy { 16 } else { 4 } } else { 0 }, // 9 goto
+            if eff { if self.control_heavy { 10 } else { 2 } } else { 0 }, // 10 exit
             2,                                                   // 11 paren
             if is_data { 30 } else { 0 },                        // 12 ctor
             if is_cod { 30 } else { 0 },                         // 13 new
@@ -827,7 +835,12 @@ impl<'a> Gen<'a> {
                 Tm::Print { newline: self.c.boolean(), arg: Box::new(arg), next: Box::new(next) }
             }
             4 => {
-                let s = self.split(size - 1, 2);
+                let mut s = self.split(size - 1, 2);
+                // control-heavy programs: sometimes all the size goes to the bound term and the
+                // body is a leaf (a variable, a literal or `exit x`)
+                if self.control_heavy && !pure && self.c.prob(48) {
+                    s = vec![size - 1, 0];
+                }
                 let vty = self.pick_type();
                 let lazy = self.is_codata(&vty);
                 // a data/int-typed bound term is a sequencing point (effects allowed);
@@ -1030,6 +1043,7 @@ impl<'a> Gen<'a> {
     }
 
     pub fn program(&mut self) -> Program {
+        self.control_heavy = self.c.prob(64);
         self.classic_decls();
         self.random_decls();
         self.build_universe();
